@@ -67,6 +67,7 @@ def bdays(start, n):
 class Stats(Harness):
     prop = 'C17'
     symbolic_arrays = True
+    chain_lemmas = True
     obligation_timeout_ms = 60000
 
     def __init__(self, cfg):
@@ -196,8 +197,19 @@ class Stats(Harness):
                 obl.append(('%s:return[%d]' % (src, t), L.ne(d['returns'][t], S['r'][t])))
                 obl.append(('%s:cum_return[%d]' % (src, t), L.ne(d['cum'][t], S['c'][t])))
                 obl.append(('%s:drawdown[%d]' % (src, t), L.ne(d['dd'][t], S['dd'][t])))
-            obl.append(('%s:max_drawdown' % src, L.ne(d['max_dd'], S['mdd'])))
-            obl.append(('%s:max_drawdown_duration' % src, L.ne(d['dur'], S['dur'])))
+            # maximum drawdown / duration are the maximum and the longest under-water run "of that series": stated over the
+            # reported drawdown series (each element proven equal to its definition just above), which keeps the queries free of
+            # the nested running-maximum terms
+            rep = [L.num(x) for x in d['dd']]
+            obl.append(('%s:max_drawdown_is_an_element_of_the_series' % src, L.And(*[L.ne(d['max_dd'], x) for x in rep])))
+            for t in range(n):
+                obl.append(('%s:max_drawdown_dominates[%d]' % (src, t), L.lt(d['max_dd'], rep[t])))
+            run = 0
+            dur = 0
+            for t in range(n):
+                run = L.ite(L.gt(rep[t], 0), run + 1, 0)
+                dur = L.ite(L.gt(run, dur), run, dur)
+            obl.append(('%s:max_drawdown_duration' % src, L.ne(d['dur'], dur)))
             self._ratio_def(L, '%s:sharpe' % src, d['sharpe'], o['h']['mean'], o['h']['std'], S['mean'], S['var'], L.true, obl)
         j = o['json']
         h = o['h']
